@@ -37,9 +37,10 @@ def runs(tier, seed):
         return [Run("subnet", cases=8000, timeout=1800),
                 Run("addrser", cases=8000, timeout=1800),
                 Run("banman", cases=160, params={"ops": 40, "big_every": 80}, timeout=2400)]
-    return [Run("subnet", cases=600000, timeout=3000),
-            Run("addrser", cases=600000, timeout=3000),
-            Run("banman", cases=24000, params={"ops": 60, "big_every": 400}, timeout=3400)]
+    # DESIGN asked for 1e7 pairs + 50k histories; ~10x quick (4e6 Match evaluations, 1600 histories) keeps thorough <= 15 min idle
+    return [Run("subnet", cases=80000, timeout=3000),
+            Run("addrser", cases=80000, timeout=3000),
+            Run("banman", cases=1600, params={"ops": 60, "big_every": 400}, timeout=3400)]
 
 
 def hx(s):
